@@ -60,4 +60,4 @@ meta['evaluations'].append({'at': time.strftime('%Y-%m-%dT%H:%M:%SZ', time.gmtim
 json.dump(meta, open(os.path.join(out, 'meta.json'), 'w'), indent=1)
 print('confirmed', meta['confirmed'], 'caught_by', meta['caught_by'])
 # regenerate any generated Lean files from /repo again
-subprocess.run(['/venv/bin/python', '-c', "import sys; sys.path.insert(0,'/verif/harness'); from translators import servicer_shape, error_table; servicer_shape.write('/repo','/verif/lean'); error_table.write('/repo','/verif/lean')"], capture_output=True)
+subprocess.run(['/venv/bin/python', '-c', "import sys; sys.path.insert(0,'/verif/harness'); from translators import servicer_shape, error_table, sql_txn; servicer_shape.write('/repo','/verif/lean'); error_table.write('/repo','/verif/lean'); sql_txn.write('/repo','/verif/lean')"], capture_output=True)
